@@ -618,6 +618,24 @@ func parseClauseLine(c *Contract, w, rest string) error {
 		cl := &Clause{Kind: kind, Loop: n, Src: r2}
 		switch kind {
 		case "invariant", "step", "decreases", "exit":
+		case "split":
+			// loop N split <var> <lo> <hi> : case split on the value of a loop variable (inclusive range)
+			f := strings.Fields(r2)
+			if len(f) < 3 {
+				return fmt.Errorf("loop split: want <var> <lo> <hi>")
+			}
+			cl.Label = f[0]
+			lo, err := ParseExpr(f[1])
+			if err != nil {
+				return err
+			}
+			hi, err := ParseExpr(strings.Join(f[2:], " "))
+			if err != nil {
+				return err
+			}
+			cl.Exprs = []*Expr{lo, hi}
+			c.Clauses = append(c.Clauses, cl)
+			return nil
 		case "unroll":
 			cl.E = &Expr{Op: "bool", Name: "true"}
 			c.Clauses = append(c.Clauses, cl)
@@ -666,7 +684,7 @@ func splitTop(s string) []string {
 	return out
 }
 
-var specHeadRe = regexp.MustCompile(`^([A-Za-z_][A-Za-z0-9_]*)\s*\(([^)]*)\)\s*(int|bool)?\s*(decreases\s+(.*?))?\s=\s(.*)$`)
+var specHeadRe = regexp.MustCompile(`^([A-Za-z_][A-Za-z0-9_]*)\s*\(([^)]*)\)\s*(int|bool|like\s+[A-Za-z_][A-Za-z0-9_]*)?\s*(decreases\s+(.*?))?\s=\s(.*)$`)
 
 func (db *SpecDB) parseSpecFn(s string) error {
 	m := specHeadRe.FindStringSubmatch(s)
